@@ -232,6 +232,56 @@ func TestDecoderExhaustive(t *testing.T) {
 	h.R.Exhaustive("decoder", fmt.Sprintf("all strings up to length %d over %d critical symbols between the three opening styles (shard %d/%d)", maxLen, k, shard, nsh))
 }
 
+// TestEscapeBodiesExhaustive - every backtick text over the alphabet of the escape names
+// (near misses of CR LF CRLF TAB SP BK U+hex included) up to a bounded length, placed in
+// the middle of a literal: a real name decodes to its character, anything else stays verbatim
+func TestEscapeBodiesExhaustive(t *testing.T) {
+	alphabet := []rune("CRLFTABSPKU+09e")
+	maxLen := h.Scale(5, 6)
+	shard, nsh := h.Shard(), h.NShards()
+	k := len(alphabet)
+	var total, skipped, named int64
+	for L := 0; L <= maxLen; L++ {
+		n := 1
+		for i := 0; i < L; i++ {
+			n *= k
+		}
+		for idx := shard; idx < n; idx += nsh {
+			body := make([]rune, 0, L)
+			x := idx
+			for i := 0; i < L; i++ {
+				body = append(body, alphabet[x%k])
+				x /= k
+			}
+			open := []rune{'“', '‘', '《'}[idx%3]
+			src := string(open) + "a`" + string(body) + "`b" + string(closers[open])
+			total++
+			fails, unspec := checkDecoder(src)
+			if unspec != "" {
+				skipped++
+				continue
+			}
+			tk, err, _ := firstToken(src)
+			isName := err == nil && len(tk.Literal) < L+4
+			if isName {
+				named++
+			}
+			if len(fails) > 0 || isName || idx%200003 == 0 {
+				labels := []string{"escape-body"}
+				if isName {
+					labels = append(labels, "decodes-to-a-character")
+				}
+				h.R.Case(t, "decoder", src, decCase{src}, labels, true, fails)
+			}
+		}
+	}
+	h.R.AddEvals(total - skipped)
+	h.R.AddDistinct(total - skipped)
+	h.R.Count("escape-body-strings", total)
+	h.R.Count("escape-bodies-that-decode", named)
+	h.R.Exhaustive("escape-body", fmt.Sprintf("all backtick texts up to length %d over the %d symbols of the escape names (shard %d/%d)", maxLen, k, shard, nsh))
+}
+
 // ---------------------------------------------------------------------------------------
 // (a) round trip
 
